@@ -202,16 +202,24 @@ def check_placement(eng, obl, out):
                     probes.structural(out, "body-placement|" + op, "the method body of %s is not interpolated into the generated impl: %s" % (op, ts[:400]), 'C17.placement')
 
 
-FORMS = ("plain", "generic", "tuple")
+FORMS = ("plain", "generic", "tuple", "pathname", "single")
 
 
 def concretise(kind, decls, form):
     """-> (derive_ex argument list, item text, accessor(vi, fi)) for one way of writing the model down.
     plain: named fields of a non-Eq type; generic: fields of a type parameter with an explicit `bound()` on Eq (no automatic bounds, as in the obligation);
     tuple (enum only): tuple variants with an ignored field in front, so that binder positions matter"""
+    # pathname: a concrete field type whose path merely *spells* a type parameter's name (`q::T` next to a parameter `T`), automatic bounds on;
+    # single (enum only): the variants one at a time, each as the only variant of its enum
     attr = "Eq, PartialEq, Hash, PartialOrd, Ord" if form != "generic" else "Eq(bound()), PartialEq, Hash, PartialOrd, Ord"
-    ty = "T" if form == "generic" else "NotEq"
-    gen = "<T>" if form == "generic" else ""
+    ty = {"generic": "T", "pathname": "q::T"}.get(form, "NotEq")
+    gen = "<T>" if form in ("generic", "pathname") else ""
+    if form == "single":
+        if kind == "struct" or len({vi for vi, _, _, _, _ in decls}) != 1:
+            return None
+        v0 = decls[0][0]
+        item = "enum X { V%d { %s } }" % (v0, ", ".join("%s f%d: %s" % (" ".join(a), fi, ty) for vi, fi, a, _, _ in decls))
+        return attr, item, (lambda vi, fi: "(* _this_f%d)" % fi)
     if kind == "struct":
         if form == "tuple":
             return None
